@@ -19,6 +19,11 @@ class VariableBoundMaxPropagator(VariableBoundPropagator):
         max_v = self.max()
   
         range_l = self.target.domain.range_l
+        
+        if max_v is None or len(range_l) == 0:
+            # One of the domains involved is already empty: nothing
+            # is left to trim. The solver reports the failure.
+            return False
         i=len(range_l)-1
         
 #        print("Max: range_l=" + str(range_l) + " max_v=" + str(max_v))
